@@ -51,6 +51,26 @@ func init() {
 		Rules:       []func(*Ctx){ruleM1, ruleM2, ruleM3, ruleM4M5},
 	})
 	reg(&Property{
+		ID:          "C03",
+		Explanation: "TBD",
+		Rules:       []func(*Ctx){ruleP1, ruleP2, ruleP3, func(c *Ctx) { ruleS10(c, 3, "bql/planner", "bql/semantic") }},
+	})
+	reg(&Property{
+		ID:          "C04",
+		Explanation: "TBD",
+		Rules:       []func(*Ctx){ruleP9, ruleP5, func(c *Ctx) { ruleP8(c, "bql/planner") }},
+	})
+	reg(&Property{
+		ID:          "C12",
+		Explanation: "TBD",
+		Rules:       []func(*Ctx){ruleP5, ruleP6},
+	})
+	reg(&Property{
+		ID:          "C11",
+		Explanation: "TBD",
+		Rules:       []func(*Ctx){ruleP7},
+	})
+	reg(&Property{
 		ID: "C07",
 		Explanation: "Decides, for every path of the analysed functions and hence every schedule that can drive them: S3 every access to a lock-guarded field (frozen guard table: memoryStore.graphs, the seven memory indexes, the five memoizer caches, Table rows/bindings) is made with the owner's lock held in the required mode; S4 no method re-acquires its receiver's lock through a same-receiver call; S5 every Store/Graph method with a result channel closes it exactly once on every return, error returns included; S6 no lookup (or module callee it passes the pointer to) stores through its *LookupOptions; S7 AddTriples is one critical section; S2 create/get/drop test presence under the lock. Linearizability, deadlock freedom in general and absence of all panics are NOT decided.",
 		Rules:       []func(*Ctx){ruleS3, ruleS4, ruleS5, ruleS6, ruleS7, ruleS2},
